@@ -136,6 +136,7 @@ public:
 
     void assist() noexcept {
         // Do not join the arena until the winner thread takes the slot
+        __TBB_VERIF_POINT(vp_once_wait_completion, this, 0);
         spin_wait_while_eq(m_is_ready, false);
         m_storage.m_arena.execute([&] {
             isolated_execute([&] {
@@ -180,6 +181,7 @@ class collaborative_once_flag : no_copy {
 
         do {
             if (expected == state::uninitialized && m_state.compare_exchange_strong(expected, runner.to_bits())) {
+                __TBB_VERIF_POINT(vp_once_winner_cas, this, 1);
                 // Winner thread
                 runner.run_once([&] {
                     try_call([&] {
@@ -202,8 +204,10 @@ class collaborative_once_flag : no_copy {
                 // "expected > state::done" prevents storing values, when state is uninitialized or done
                 } while (expected > state::done && !m_state.compare_exchange_strong(expected, expected + 1));
 
+                __TBB_VERIF_POINT(vp_once_helper_ref, this, expected > 2);
                 if (auto shared_runner = collaborative_once_runner::from_bits(expected & ~collaborative_once_references_mask)) {
                     collaborative_once_runner::lifetime_guard guard{*shared_runner};
+                    __TBB_VERIF_POINT(vp_once_helper_ref, this, 0);
                     m_state.fetch_sub(1);
 
                     // The moonlighting threads are not expected to handle exceptions from user functor.
